@@ -210,15 +210,22 @@ class Interp:
         script = self.sc.get('scripts', {}).get(f'cb:{li}:{n}')
         if script and len(self.nest) < 4 and not self.storm:
             for op in script:
-                if op[0] == 'assign' and op[1] < len(self.transforms):
+                if op[0] == 'echo' and self.current is not None:
+                    # the very object just received is assigned again to the
+                    # same property of the same transform: one more
+                    # assignment, one more round of notifications
+                    t, prop = self.current
+                    self.probes['received_object_assigned_again'] += 1
+                    self.nested_assign(['assign', t, prop, None], raw=value)
+                elif op[0] == 'assign' and op[1] < len(self.transforms):
                     self.probes['assignment_from_inside_a_callback'] += 1
                     self.nested_assign(op)
 
-    def nested_assign(self, op):
+    def nested_assign(self, op, raw=None):
         """An assignment issued by a listener while a notification is being
         delivered (feedback between transforms, clamping, ...)."""
         _, t, prop, v = op
-        val = self.value(self.dims[t], prop, v)
+        val = raw if raw is not None else self.value(self.dims[t], prop, v)
         self.nest.append((t, prop, val))
         self.executed.append((t, prop, val))
         self.model[t][prop] = ('rot2', val) if (
@@ -540,7 +547,8 @@ def generate(prop, run_seed, tier='quick', tolerate=frozenset()):
             t = rng.randrange(nt)
             p = rng.choice(PROPS)
             scripts[f'cb:{li}:{rng.randint(0, 6)}'] = [
-                ['assign', t, p, unique_value(transforms[t]['dim'], p)]]
+                ['assign', t, p, unique_value(transforms[t]['dim'], p)]
+                if rng.random() < .75 else ['echo']]
     r = crng.random()
     if r < .04:
         t = crng.randrange(nt)
@@ -596,4 +604,5 @@ PROBES = {'C20': ['rotation_out_of_range', 'negative_rotation',
                   'assignment_from_inside_a_callback', 'cascade_checked',
                   'listener_subclass_overrides', 'feedback_chain>64',
                   'callback_not_a_plain_function', 'instance_level_mapping',
+                  'received_object_assigned_again',
                   'raising_listener_storm']}
